@@ -115,6 +115,9 @@ def check(m, run):
     skel_rows(m, run)
     run.floor('GD4.validation-guard', 4, 'bezier x2, num, degree<2')
     run.floor('DK1.accumulator-shape', 2, 'elevation and reduction accumulators')
+    # degree_operations and the decomposition before it work on deep copies: the copy shares nothing with the curve it was taken from
+    from .. import rules_state as _rs
+    _rs.iv4_deepcopy(m, run)
 
 
 def pr1(m, run):
